@@ -5,8 +5,10 @@
   Alloc.lean    one lemma per allocation path, `allocate` preserves the invariant
   Step.lean     register_destructor, release (state), one resource step, two resources + move
   Release.lean  the event trace of release()
+  Shared.lean   release() of the shared / swiss variants over all per-thread resources
   Blocks.lean   what the invariant says about a block just handed out; stability
   (this file)   aggregates them
 -/
 import Babylon.Arena.Release
 import Babylon.Arena.Blocks
+import Babylon.Arena.Shared
